@@ -17,6 +17,8 @@ from simplan.pool import Pool
 from simplan.tape import digest, rng_for
 
 PROP = "C11"
+# what counts as "rejected with a parse error": the grammar's own errors and deliberate value errors
+PARSE_ERROR_TYPES = {"UnexpectedToken", "UnexpectedCharacters", "UnexpectedEOF", "UnexpectedInput", "ValueError", "TjException", "TjRuntimeError", "GrammarError", "LexError", "ParseError"}
 CALIB = os.path.join(harness.VERIF, "calib", "step_budget.json")
 _FIX = None
 
@@ -104,6 +106,9 @@ def oracles(case: dict, r: dict, B: dict) -> list[dict]:
         V.append(_v("rejection", f"{r['parse_exc']}|{r['parse_frame']}", f"parse() left through {r['parse_exc']} (not an Exception a caller can catch) at {r['parse_frame']}; stderr: {r.get('stderr_tail', '')[-160:]!r}"))
         return V
     if r.get("parse") == "rejected":
+        kind = r.get("parse_exc", "").split(":")[-1]
+        if kind not in PARSE_ERROR_TYPES:
+            V.append(_v("rejection", f"internal|{r['parse_exc']}|{r['parse_frame']}", f"parse() rejected the text with {r['parse_exc']} ({r.get('parse_msg', '')}) at {r['parse_frame']}: an internal error, not a parse error"))
         # rejected by the grammar / transformer: cost must be proportional to the text
         # macro expansion may legitimately make 100 passes over a text that grows to 100x its size
         # (about 5 steps per character and pass): texts with macro definitions get the wider constant
